@@ -94,3 +94,7 @@ func VerifC02_q_rollingUpdate() {
 	verifAssert("C02/app-ip-count", count() <= replicas, "the deployment holds more IPs than replicas after a rolling update")
 	w.checkAll("C02", "rolling update")
 }
+
+// BOUND: topology 1 (4 IPs); a deployment with the immutable policy, replicas 3, three pods bound; scaled to 2 (one IP is surplus) or left at 3 (none is); two of its pods are deleted; the unbind of the first runs while the unbind of the second runs as a second logical thread starting inside any one window right before/after an API-server or IPAM call of the first (symbolic window 0..14), parking wherever it needs a key lock the first holds; then caches catch up and one resync pass. Afterwards the replacement of a deleted pod must be bound with an IP the deployment held (the reserve was not released by mistake)
+// ASSUME: C02: same scenario as VerifC03_q_concurrentUnbinds, checked under C02
+func VerifC02_q_concurrentUnbinds() { vpConcurrentUnbinds("C02") }
